@@ -511,6 +511,8 @@ def c16_case(rnd, cs, job, acc):
         if "end" in t and rnd.random() < 0.5:
             t["sc_end"] = {s: t["end"] - timedelta(days=rnd.randint(1, 2)) for s in rnd.sample(sids[1:], 1)}
             n_over += 1
+        if rnd.random() < 0.35:
+            t["sc_first"] = True      # the scenario-specific lines stand in front of the plain ones
     text_multi = gen.render(m_multi, scenarios=scen_lines(tree))
     p, _, ev = run(text_multi)
     acc.count("multi-scenario-runs")
@@ -523,6 +525,7 @@ def c16_case(rnd, cs, job, acc):
     ends = p["end"]
     # (1) each scenario == the single-scenario project with its effective attributes
     bad = None
+    hz = None
     for i, sid in enumerate(sids):
         ms = copy.deepcopy(m)
         for t, tmulti in zip(ms["tasks"], m_multi["tasks"]):
@@ -538,7 +541,14 @@ def c16_case(rnd, cs, job, acc):
         ps, _, _ = run(gen.render(ms))
         acc.count("single-scenario-runs")
         if ps["end"] != ends:
-            acc.count("skipped-horizon-differs")   # the horizon is computed from scenario 0's efforts: precondition observed
+            # the engine extends the project end from the efforts of scenario 0 only: a scenario whose own efforts need
+            # a longer (or shorter) horizon is NOT scheduled as if it were the only one.  Known finding (mechanism
+            # horizon-extension-from-scenario-0), reported per case, never skipped.
+            acc.count("horizon-differs-from-single-scenario-project")
+            ds = dates(ps, 0)
+            diff = [(k, per_sc[i][k], ds[k]) for k in ds if ds[k] != per_sc[i][k]]
+            if diff and not hz:
+                hz = dict(scenario=sid, index=i, first=diff[0], ndiff=len(diff), horizon_multi=ends, horizon_alone=ps["end"])
             continue
         ds = dates(ps, 0)
         diff = [(k, per_sc[i][k], ds[k]) for k in ds if ds[k] != per_sc[i][k]]
@@ -548,6 +558,9 @@ def c16_case(rnd, cs, job, acc):
             bad = dict(scenario=sid, index=i, first=diff[0], ndiff=len(diff), nested=nested)
     if bad:
         acc.violation("C16", "scenario-differs-from-single-scenario-project", bad, [], dict(rp, clause="scenario-differs-from-single-scenario-project"))
+    if hz:
+        acc.violation("C16", "scenario-differs-from-single-scenario-project", hz, ["horizon-extension-from-scenario-0"],
+                      dict(rp, clause="scenario-differs-from-single-scenario-project"))
     # (2) a scenario without any override anywhere on its path == its parent
     par = dict(tree)
     for i, sid in enumerate(sids):
